@@ -38,6 +38,19 @@ ADDENDA = {
  "C20": "Fifth session: Experiment values with an earlier life (an Execute with two more runs, a Trials slice pre-sized to another length: the record count is then not judged, 14.6); one object as evaluator and observer.",
 }
 
+# additions of the sixth session (DESIGN.md 14.9)
+ADDENDA6 = {
+ "C02": "Sixth session: a tenth fitness family of finite values at the top of the float64 range (1e308-ish values, math.MaxFloat64 sentinels) whose sums over several species overflow (70 quick / 420 thorough scenarios).",
+ "C04": "Sixth session: every third mating of two DIFFERENT genomes in the lineage traces happens under equal genome ids (every species numbers its babies from 0).",
+ "C07": "Sixth session: the same gene lists on modular operands whose control gene is numbered above all genes / just above the operand's own last gene / below everything (46 evaluations per case and coefficient vector).",
+ "C11": "Sixth session: every graph query is asked twice on the same network instance, the second pass in descending id order with the undirected question before the directed ones.",
+ "C12": "Sixth session: MC_Solvers_chain (three hidden neurons: chains of depth 4 with a skip link, inputs 0 / 1, step next to linear neurons) and the reversed neuron listing as a variant of every case.",
+ "C14": "Sixth session: three reported non-terminating queries end the replay with a verdict (every hanging query leaves a goroutine spinning).",
+ "C20": "Sixth session: every other run ends its context the way a deadline does (Done closes, Err() = context.DeadlineExceeded) at the scripted moment.",
+}
+for _k, _v in ADDENDA6.items():
+    ADDENDA[_k] = (ADDENDA[_k] + " " + _v) if _k in ADDENDA else _v
+
 ALL = [json.loads(l)["id"] for l in open(os.path.join(VERIF, "properties.jsonl"))]
 
 
